@@ -26,6 +26,7 @@ def run(ck: Checker):
         server.check_only_deleter(ck, 'C07-3', s)
         server.check_wakeup_not_wasted(ck, 'C07-7', s)
         server.check_single_deadline(ck, 'C07-8', s)
+        server.check_remaining_time(ck, 'C07-8', s)  # ... and the admission wait of every pass is what is left of it (C06-8)
     # stream cleanup: the only operations on dequeued futures are result / cancel / await
     for q in ('fifo_stream', 'async_fifo_stream'):
         outer = ck.repo.func(STREAMER, q)
